@@ -378,6 +378,23 @@ static bool runIter(uint64_t seed, uint64_t idx, int onlyTd, int onlyProto)
         vf::sleepMs(0.2);
       }
     }
+    // a second chunk arrives WHILE the flushers sit in their slow data callback: the session is still
+    // in Sync mode during the flush, so the I/O thread appends it to the sync buffer. Whether the
+    // flusher may still hand it to onData depends on what happens before its callback returns.
+    if (expFlush > 0 && st->inFlushCb.load() >= expFlush)
+    {
+      for (int i = 0; i < expFlush; i++) t->send(flushReady[size_t(i)], "SECOND-CHUNK-SECOND-CHUNK", 25);
+      uint64_t until = vf::nowNs() + 2000000000ull;
+      int got = 0;
+      while (vf::nowNs() < until)
+      {
+        got = 0;
+        for (int i = 0; i < expFlush; i++) if (bufferedBytes(raw, flushReady[size_t(i)]) > 0) got++;
+        if (got == expFlush) break;
+        vf::sleepMs(0.1);
+      }
+      if (got) O.obs("second_chunk_buffered_while_flusher_in_data_callback", uint64_t(got));
+    }
     // racers: co-owning threads that ENTER a blocking call around the teardown moment
     bool flushRacerUsed = false;
     for (int i = 0; i < nRacers; i++)
@@ -508,6 +525,7 @@ static bool runIter(uint64_t seed, uint64_t idx, int onlyTd, int onlyProto)
         st->stopInProgress = true;
         try { own->stop(); } catch (const std::exception &ex) { w->threw = true; w->what = ex.what(); }
         st->fence = true; // stop() has returned to a non-callback caller
+        if (st->inFlushCb.load() > 0) O.obs("flusher_still_inside_onData_entered_before_stop_returned"); // cannot be interrupted: counted
         st->stopInProgress = false;
         stopsReturned++;
         w->inCall = false; w->t1 = vf::nowNs();
@@ -557,7 +575,13 @@ static bool runIter(uint64_t seed, uint64_t idx, int onlyTd, int onlyProto)
       }
       else { if (udp) uecho->sendTo(trigLocalPort, "TRIG-drop"); else trig->requestSendAll("TRIG-drop"); }
     }
-    // flushers held in their slow data callback are released a little after teardown began
+    // flushers held in their slow data callback are released a little after teardown began — or, for
+    // the stop kinds, mostly only after stop() has returned (slow consumer outliving the stop)
+    if (!destroying && rng.chance(0.7))
+    {
+      uint64_t until = vf::nowNs() + 10000000000ull;
+      while (stopsReturned.load() == 0 && vf::nowNs() < until) vf::sleepMs(0.1);
+    }
     vf::sleepMs(double(holdMs));
     st->holdFlush = false;
 
@@ -694,9 +718,12 @@ static bool runIter(uint64_t seed, uint64_t idx, int onlyTd, int onlyProto)
         O.viol(std::string("C05:fence:callback-after-") + (destroying ? "destroying-reset" : "stop") + "-returned:" + tdp,
                std::string("callbacks were entered on the I/O thread after ") + (destroying ? "the destroying reset()" : "stop()") + " had returned to a non-callback caller: " + kinds, desc);
     }
-    // onData entered on a *flusher's own thread*, synchronously inside its own setReadMode(Sync->Async)
-    // call, is the caller draining its buffer, not the transport calling back: counted, not a violation
-    if (uint64_t n = st->fenceViolFlush.exchange(0)) O.obs("onData_delivered_inside_callers_own_setReadMode_flush_after_stop_returned", n);
+    // flusher threads are fenced too: an onData that was entered before stop() returned and is still
+    // running cannot be interrupted (counted above), but a setReadMode(Sync->Async) flush must not
+    // ENTER a new onData once stop() has returned (the session's onClose has been delivered by then)
+    if (uint64_t n = st->fenceViolFlush.exchange(0))
+      O.viol("C05:fence:onData-entered-by-setReadMode-flush-after-stop-returned:" + tdp,
+             "a setReadMode(Sync->Async) flush entered onData on the flusher's thread after stop() had returned to a non-callback caller (" + std::to_string(n) + " times)", desc);
     O.obs("fence_checks");
     if (!t) break; // destroyed in this cycle
   }
